@@ -556,6 +556,11 @@ fn starts_html_block(line: &str) -> bool {
     if line.starts_with("<!") || line.starts_with("<?") {
         return true;
     }
+    // (an address or a mail address between angle brackets is a link, not a tag)
+    let inside = line[1..].split('>').next().unwrap_or_default();
+    if model::has_scheme(inside) || (inside.contains('@') && !inside.contains(' ')) {
+        return false;
+    }
     let name = line[1..]
         .trim_start_matches('/')
         .chars()
